@@ -172,8 +172,24 @@ class _BrokenMarker:
 
 
 def _call(item):
+    global _TIMEOUTS  # pylint: disable=global-statement
+    if _TIMEOUTS >= 3 and _WORK_TIMEOUTS >= 1:
+        st = Stats()
+        st.capped = True
+        st.notes.append("work item skipped after repeated watchdog time-outs in this worker")
+        return st
     try:
         return _WORKER_FN(item)
+    except WatchdogTimeout as err:
+        # an execution outside any judge() (an explorer body) did not return: a verdict, not a hang
+        globals()["_WORK_TIMEOUTS"] = _WORK_TIMEOUTS + 1
+        _TIMEOUTS += 3
+        st = Stats()
+        out = Outcome()
+        out.bad("nontermination:watchdog", f"an execution of work item {str(item)[:160]!r} did not finish ({err})")
+        st.add({"kind": "work-item", "item": str(item)[:400]}, out)
+        st.capped = True
+        return st
     except Broken as err:
         return _BrokenMarker(f"{err}\n{traceback.format_exc()}")
     except BaseException as err:  # pylint: disable=broad-except
@@ -219,6 +235,8 @@ def watchdog(seconds, fn, *args, **kw):
     def _fire(_sig, _frm):
         raise WatchdogTimeout(f"no return within {seconds}s")
 
+    if signal.getitimer(signal.ITIMER_REAL)[0] > 0:
+        return fn(*args, **kw)  # an outer watchdog is already running: it stays in charge
     old = signal.signal(signal.SIGALRM, _fire)
     signal.setitimer(signal.ITIMER_REAL, seconds)
     try:
@@ -245,6 +263,12 @@ def passed_through_library(err) -> str | None:
     return last
 
 
+CASE_LIMIT_S = 60
+CASE_LIMIT_AGAIN_S = 10
+_TIMEOUTS = 0
+_WORK_TIMEOUTS = 0
+
+
 def guard(judge):
     """
     Decorator for a check's judge(): an exception that escapes THROUGH library code and that the
@@ -257,8 +281,41 @@ def guard(judge):
 
     @functools.wraps(judge)
     def wrapper(case, *args, **kw):
+        global _TIMEOUTS  # pylint: disable=global-statement
+        if _TIMEOUTS >= 3:
+            # this process has already reported three hung cases: the verdict is settled, the
+            # remaining cases of the work item are not executed (each would cost its time limit)
+            out = Outcome()
+            out.nontrivial = False
+            out.extra["cases_skipped_after_repeated_timeouts"] = 1
+            return out
+        import signal  # pylint: disable=import-outside-toplevel
+
+        if signal.getitimer(signal.ITIMER_REAL)[0] > 0:
+            # an outer watchdog (a work item's own backstop) is in charge: its time-out must reach IT
+            try:
+                return judge(case, *args, **kw)
+            except Broken:
+                raise
+            except Exception as err:  # pylint: disable=broad-except
+                where = passed_through_library(err)
+                if where is None:
+                    raise Broken(f"harness exception {err!r}\n{traceback.format_exc()}") from err
+                out = Outcome()
+                out.bad(f"exception-escapes-library:{type(err).__name__}",
+                        f"{type(err).__name__}: {err} escaped from the library ({where}) where the "
+                        f"check expected a result or a library exception")
+                return out
         try:
-            return judge(case, *args, **kw)
+            # wall-clock backstop for every single case: library code that spins for ever must
+            # yield a verdict, not a hung check (generous the first time, short once it has fired)
+            return watchdog(CASE_LIMIT_S if _TIMEOUTS == 0 else CASE_LIMIT_AGAIN_S, judge, case, *args, **kw)
+        except WatchdogTimeout as err:
+            _TIMEOUTS += 1
+            out = Outcome()
+            out.bad("nontermination:watchdog",
+                    f"the case did not finish ({err}); cases of this check take milliseconds to seconds")
+            return out
         except Broken:
             raise
         except Exception as err:  # pylint: disable=broad-except
